@@ -133,3 +133,14 @@ pub fn history_recovery_then_mtu_update(new_mtu: u16) -> (u64, u64, bool) {
     assert!(before_ok);
     (w, 2 * new_mtu as u64, limited_by_recovery)
 }
+
+/// Native replay body for the E2 query `e2_bbr_new_window_floor` (C12): a real `Bbr` controller built through
+/// the public configuration API with the given initial window and MTU reports at least two datagrams at once.
+pub fn new_window_native(initial_window: u32, mtu: u16) -> u32 {
+    let mut cfg = BbrConfig::default();
+    cfg.initial_window(initial_window as u64);
+    let c = Bbr::new(Arc::new(cfg), mtu.max(1200));
+    let w = c.window();
+    assert!(w >= 2 * mtu.max(1200) as u64, "a new Bbr controller reports a window of {} bytes with an MTU of {}", w, mtu.max(1200));
+    1
+}
